@@ -56,6 +56,10 @@ def run(ctx, tier):
                         "through the basic URL parser drop ASCII tab/newline first"),
                  ("T8", "(shared with C14.M6) 'protocol matches a special scheme', which selects the hierarchical or the opaque "
                         "pathname canonicaliser, enumerates exactly the special schemes in both of its arms"),
+                 ("T10", "(shared with C14.M8) pattern strings and regular expressions are assembled from the Standard's fragments; the "
+                         "escape predicates escape the Standard's code points"),
+                 ("T11", "the IPv6-hostname canonicaliser rejects exactly the bytes that are not hex digits, '[', ']' or ':'; the pathname "
+                         "canonicaliser removes exactly the prefix it added"),
                  ("T9", "the port canonicaliser tests the port state's limits (five significant digits, 65535)"),
                  ("T5", "each URLPattern canonicaliser scans and encodes with the one percent-encode set of its component")):
         ctx.rule(r, t)
@@ -70,6 +74,9 @@ def run(ctx, tier):
         from rules import c14
         c14.check_special_scheme_twins(ctx, fxs[name], "T8")
         from rules import c10_limits
+        from rules import c14_literals
+        c14_literals.check(ctx, fxs[name], "T10")
+        check_hostname6_and_prefix(ctx, fxs[name])
         c10_limits.check(ctx, fxs[name], "T9", table=c10_limits.PORT_LIMITS_PATTERN, floor=1, contains=True, what="the port state's")
 
 
@@ -521,3 +528,41 @@ def classify_with_expr(bl, bid, idx, var, key):
     fake["ty"] = "uint8_t"
     out = bl.classify(bid, idx, fake, seed={var["id"]: vals})
     return out
+
+
+def check_hostname6_and_prefix(ctx, fx):
+    """T11.  (a) canonicalize an IPv6 hostname: "if code point is not an ASCII hex digit, '[', ']' or ':' throw": the
+    predicate handed to any_of is evaluated for all 256 byte values.  (b) canonicalize a pathname prepends "/-" to a value
+    without a leading slash and afterwards returns the code point substring from 2: the number removed must be the length
+    of the literal added (both are the Standard's, and they are coupled)."""
+    from lib.byteset import ByteSem, Unsupported, byte_identity
+    from spec import whatwg as W
+    lam = [g for g in fx.functions if g.get("lambda") and "canonicalize_ipv6_hostname" in g["key"]]
+    cand = lam or [g for g in fx.functions if C.first_party(g) and "url_pattern_helpers" in g["qname"] and "ipv6" in g["name"]
+                   and len(g.get("params", [])) == 1 and "char" in g["params"][0].get("ty", "") and g.get("blocks")]
+    if len(cand) != 1:
+        ctx.broken("T11: the byte predicate of canonicalize_ipv6_hostname was not found (%d candidates)" % len(cand))
+    sem = ByteSem(fx)
+    try:
+        got = sem.pred_set(cand[0]["key"])
+    except Unsupported as ex:
+        ctx.broken("T11: the IPv6-hostname predicate is not a single-expression byte predicate (%s)" % ex)
+    allowed = W.ASCII_HEX | frozenset(b"[]:")
+    rejects = frozenset(range(256)) - allowed
+    ok = got == rejects or got == allowed
+    ctx.check("T11", "canonicalize_ipv6_hostname byte class", ok,
+              "rejects everything but 0-9 a-f A-F [ ] :",
+              "the predicate is true for %d byte values; it must single out exactly the bytes that are not ASCII hex digits, '[', ']' "
+              "or ':' (differences: %s)" % (len(got), "".join(chr(b) if 32 < b < 127 else "\\x%02x" % b for b in sorted((got ^ rejects) if len(got) > 128 else (got ^ allowed))[:12])),
+              where=cand[0]["loc"].replace("/repo/", ""))
+    f = fx.fn1(NS + "canonicalize_pathname")
+    dev = lambda st: any(x.startswith("ADA_ASSERT") or x in ("ada_log", "ADA_FAIL") for x in (st.get("macros") or []))
+    lits = {nd["v"] for nd, st, b in C.all_nodes(f) if nd.get("k") == "lit" and nd.get("str") and not dev(st)}
+    ints = {nd["v"] for nd, st, b in C.all_nodes(f) if nd.get("k") == "lit" and not nd.get("str") and not nd.get("chr")
+            and isinstance(nd.get("v"), int) and not isinstance(nd.get("v"), bool) and nd["v"] >= 1 and not dev(st)}
+    ctx.check("T11", "canonicalize_pathname: prefix added = prefix removed", "/-" in lits and ints <= {2} and 2 in ints,
+              "\"/-\" and substr(2)",
+              "canonicalize_pathname uses the string literals {%s} and the integer constants {%s}: a value without a leading slash "
+              "gets \"/-\" prepended and the result is the substring from 2 (the length of that prefix)"
+              % (", ".join(sorted(repr(x) for x in lits)), ", ".join(str(x) for x in sorted(ints))), where=f["loc"].replace("/repo/", ""))
+    ctx.floor("T11", 2, 2, "obligations")
